@@ -12,7 +12,8 @@
 (*   sub    \in {"output","mkdir","verify","template"}                     *)
 (*   format \in {"", "json","yaml","toml","bad"}                           *)
 (*   file   \in {"stdin","dash","existing","missing"}                      *)
-(*   doc    \in {"wf","malformed","empty","hostile","dot"} (hostile: a name *)
+(*   doc    \in {"wf","malformed","empty","hostile","dot","big"} (big: well-  *)
+(*            formed, more than 1 MiB, many roots; hostile: a name          *)
 (*            with '/': fine for output, invalid for mkdir/verify/dry-run) *)
 (*   stdout \in {"pipe","closed","full"}                                   *)
 (*   watch: output --watch renders the file, then again whenever its       *)
